@@ -139,7 +139,7 @@ def reflect_receive(path, prefix):
         if role not in table:
             fail(f, f'no try block around the {role} decoder', fn)
     # fragment guard: an `if not data: return` in the LP branch, before parse_tl_num
-    guard = False
+    guard = 0
     lp_if = None
     for n in f.body:
         if isinstance(n, ast.If) and isinstance(n.test, ast.Compare) and attr_name(n.test.comparators[0]) == 'LP_PACKET':
@@ -153,10 +153,18 @@ def reflect_receive(path, prefix):
     if tl_line is None:
         fail(lp_if, 'parse_tl_num(fragment) not found in the LP branch', fn)
     for n in lp_if.body:
-        if isinstance(n, ast.If) and isinstance(n.test, ast.UnaryOp) and isinstance(n.test.op, ast.Not) \
-                and isinstance(n.test.operand, ast.Name) and n.test.operand.id in ('data', 'fragment') \
-                and len(n.body) >= 1 and isinstance(n.body[-1], ast.Return) and not n.orelse and n.lineno < tl_line:
-            guard = True
+        if isinstance(n, ast.If) and len(n.body) >= 1 and isinstance(n.body[-1], ast.Return) and not n.orelse \
+                and n.lineno < tl_line:
+            t = n.test
+            # `if not data:` drops a missing and an empty Fragment
+            if isinstance(t, ast.UnaryOp) and isinstance(t.op, ast.Not) and isinstance(t.operand, ast.Name) \
+                    and t.operand.id in ('data', 'fragment'):
+                guard = 1
+            # `if data is None:` drops a missing Fragment only
+            elif isinstance(t, ast.Compare) and isinstance(t.left, ast.Name) and t.left.id in ('data', 'fragment') \
+                    and len(t.ops) == 1 and isinstance(t.ops[0], ast.Is) and isinstance(t.comparators[0], ast.Constant) \
+                    and t.comparators[0].value is None and not guard:
+                guard = 2
     # constants of the dispatch: typ == X.INTEREST / X.DATA
     consts = {}
     for n in ast.walk(f):
@@ -172,7 +180,7 @@ def reflect_receive(path, prefix):
     out.append(f'Definition {prefix}_catch_nack : list err := {coq_list(table["nack"])}.')
     out.append(f'Definition {prefix}_catch_interest : list err := {coq_list(table["interest"])}.')
     out.append(f'Definition {prefix}_catch_data : list err := {coq_list(table["data"])}.')
-    out.append(f'Definition {prefix}_frag_guard : bool := {"true" if guard else "false"}.')
+    out.append(f'Definition {prefix}_frag_guard : N := {guard}.')
     out.append(f'Definition {prefix}_catch_fragtl : list err := {coq_list(table.get("fragtl", []))}.')
     return out
 
